@@ -1,10 +1,11 @@
 (* C04 - Processes started together see one committed snapshot (scheduler part).
-   Model: Model/Sched.v; proofs: Proofs/Sched_clock_proofs.v.  The permutation-invariance clause is decided by the
-   metamorphic correspondence stream of the check (shuffled listings), see DESIGN.md.
+   Model: Model/Sched.v; proofs: Proofs/Sched_clock_proofs.v.  The permutation-invariance clause is the theorem
+   listing_order_moot (Proofs/Sched_perm_proofs.v), for processes; the listing order of ports, of topology entries
+   and of steps, and the real engine, are decided by the metamorphic correspondence stream (shuffled listings).
    This file contains only statements closed by `exact`, their assumptions and non-vacuity examples.
    Generated once by tools/genprops.py from the proved lemmas (statements restated verbatim). *)
-From Coq Require Import List NArith ZArith Bool Lia Sorting.Sorted.
-From Viv Require Import Model.Sched Model.SchedC Proofs.Sched_defs Proofs.Sched_clock_proofs Proofs.Sched_once_proofs Proofs.SchedC_witness.
+From Coq Require Import List NArith ZArith Bool Lia Sorting.Sorted Sorting.Permutation.
+From Viv Require Import Model.Sched Model.SchedC Proofs.Sched_defs Proofs.Sched_clock_proofs Proofs.Sched_once_proofs Proofs.SchedC_witness Proofs.Sched_perm_proofs.
 Import ListNotations.
 Open Scope Z_scope.
 
@@ -46,6 +47,117 @@ Theorem C04_iter_log_shape :
            forallb is_poll polls = true /\ forallb is_drop drops = true.
 Proof. exact @iter_log_shape. Qed.
 Print Assumptions C04_iter_log_shape.
+
+(* LISTING ORDER IS MOOT: when timestep, condition and update are functions of the viewed state and the application of a batch does not depend on the order of its updates, two engines whose process lists are permutations of each other produce, for any sequence of run_for calls, the same clock, the same store, the same emitted rows and the same fronts (and run out of fuel together) *)
+Theorem C04_listing_order_moot :
+  forall (Sg U W : Type) (poll : W -> pid -> Sg -> Z * W)
+           (cond : W -> pid -> Z -> Sg -> bool * W) (next : W -> pid -> Z -> Sg -> U * W)
+           (commit : Sg -> list pid -> list (pid * U) -> Sg * list pid) (vr : variant)
+           (emit_every : option Z) (pollf : pid -> Sg -> Z) (condf : pid -> Z -> Sg -> bool)
+           (nextf : pid -> Z -> Sg -> U),
+         (forall (w : W) (p : pid) (s : Sg), poll w p s = (pollf p s, w)) ->
+         (forall (w : W) (p : pid) (ts : Z) (s : Sg), cond w p ts s = (condf p ts s, w)) ->
+         (forall (w : W) (p : pid) (ts : Z) (s : Sg), next w p ts s = (nextf p ts s, w)) ->
+         forall capply : Sg -> list (pid * U) -> Sg,
+         (forall (s : Sg) (ps : list pid) (us : list (pid * U)), commit s ps us = (capply s us, ps)) ->
+         (forall (s : Sg) (us us' : list (pid * U)), Permutation us us' -> capply s us = capply s us') ->
+         forall (fuel : nat) (calls : list (Z * bool)) (t0 : Z) (ps ps' : list pid) 
+           (s0 : Sg) (w0 : W),
+         Permutation ps ps' ->
+         NoDup ps ->
+         let (o, oka) :=
+           run_calls Sg U W poll cond next commit vr emit_every fuel calls (init Sg U W t0 ps s0 w0) in
+         match o with
+         | Some a =>
+             let (o0, okb) :=
+               run_calls Sg U W poll cond next commit vr emit_every fuel calls
+                 (init Sg U W t0 ps' s0 w0) in
+             match o0 with
+             | Some b =>
+                 gt Sg U W a = gt Sg U W b /\
+                 sto Sg U W a = sto Sg U W b /\
+                 rows Sg (log Sg U W a) = rows Sg (log Sg U W b) /\
+                 (forall p : pid, flook U (frt Sg U W a) p = flook U (frt Sg U W b) p) /\ oka = okb
+             | None => False
+             end
+         | None =>
+             let (o0, okb) :=
+               run_calls Sg U W poll cond next commit vr emit_every fuel calls
+                 (init Sg U W t0 ps' s0 w0) in
+             match o0 with
+             | Some _ => False
+             | None => oka = okb
+             end
+         end.
+Proof. exact @listing_order_moot. Qed.
+Print Assumptions C04_listing_order_moot.
+
+(* ... one pass of the loop preserves the equivalence (fronts as maps, process lists up to permutation) *)
+Theorem C04_iter_equiv :
+  forall (Sg U W : Type) (poll : W -> pid -> Sg -> Z * W)
+           (cond : W -> pid -> Z -> Sg -> bool * W) (next : W -> pid -> Z -> Sg -> U * W)
+           (commit : Sg -> list pid -> list (pid * U) -> Sg * list pid) (vr : variant)
+           (emit_every : option Z) (pollf : pid -> Sg -> Z) (condf : pid -> Z -> Sg -> bool)
+           (nextf : pid -> Z -> Sg -> U),
+         (forall (w : W) (p : pid) (s : Sg), poll w p s = (pollf p s, w)) ->
+         (forall (w : W) (p : pid) (ts : Z) (s : Sg), cond w p ts s = (condf p ts s, w)) ->
+         (forall (w : W) (p : pid) (ts : Z) (s : Sg), next w p ts s = (nextf p ts s, w)) ->
+         forall capply : Sg -> list (pid * U) -> Sg,
+         (forall (s : Sg) (ps : list pid) (us : list (pid * U)), commit s ps us = (capply s us, ps)) ->
+         (forall (s : Sg) (us us' : list (pid * U)), Permutation us us' -> capply s us = capply s us') ->
+         forall (endt : Z) (force : bool) (et : Z) (a b : st Sg U W),
+         st_equiv Sg U W a b ->
+         let
+         '(a', fa, eta, oka) := iter Sg U W poll cond next commit vr emit_every endt force et a in
+          let
+          '(b', fb, etb, okb) := iter Sg U W poll cond next commit vr emit_every endt force et b in
+           st_equiv Sg U W a' b' /\ fa = fb /\ eta = etb /\ oka = okb.
+Proof. exact @iter_equiv. Qed.
+Print Assumptions C04_iter_equiv.
+
+(* ... engine construction from permuted listings gives equivalent states *)
+Theorem C04_init_equiv :
+  forall (Sg U W : Type) (t0 : Z) (ps ps' : list pid) (s0 : Sg) (w0 : W),
+         Permutation ps ps' ->
+         NoDup ps -> st_equiv Sg U W (init Sg U W t0 ps s0 w0) (init Sg U W t0 ps' s0 w0).
+Proof. exact @init_equiv. Qed.
+Print Assumptions C04_init_equiv.
+
+(* the hypotheses are satisfiable: the statement instantiated with additive integer updates *)
+Theorem C04_listing_order_moot_additive :
+  forall (vr : variant) (ee : option Z) (fuel : nat) (calls : list (Z * bool)) 
+           (t0 : Z) (ps ps' : list pid) (s0 : Z),
+         Permutation ps ps' ->
+         NoDup ps ->
+         let poll := fun (w : unit) (_ : pid) (_ : Z) => (1, w) in
+         let cond := fun (w : unit) (_ : pid) (_ _ : Z) => (true, w) in
+         let next := fun (w : unit) (p : pid) (ts s : Z) => (Z.of_N p * ts + s, w) in
+         let commit := fun (s : Z) (qs : list pid) (us : list (pid * Z)) => (pm_sum s us, qs) in
+         let (o, oka) :=
+           run_calls Z Z unit poll cond next commit vr ee fuel calls (init Z Z unit t0 ps s0 tt) in
+         match o with
+         | Some a =>
+             let (o0, okb) :=
+               run_calls Z Z unit poll cond next commit vr ee fuel calls (init Z Z unit t0 ps' s0 tt) in
+             match o0 with
+             | Some b =>
+                 gt Z Z unit a = gt Z Z unit b /\
+                 sto Z Z unit a = sto Z Z unit b /\
+                 rows Z (log Z Z unit a) = rows Z (log Z Z unit b) /\
+                 (forall p : pid, flook Z (frt Z Z unit a) p = flook Z (frt Z Z unit b) p) /\
+                 oka = okb
+             | None => False
+             end
+         | None =>
+             let (o0, okb) :=
+               run_calls Z Z unit poll cond next commit vr ee fuel calls (init Z Z unit t0 ps' s0 tt) in
+             match o0 with
+             | Some _ => False
+             | None => oka = okb
+             end
+         end.
+Proof. exact @listing_order_moot_additive. Qed.
+Print Assumptions C04_listing_order_moot_additive.
 
 
 (* ---- non-vacuity: a reachable state of a concrete composite meets the hypotheses ---- *)
